@@ -520,6 +520,14 @@ func (c *Case) drawPoolSettings(t *rapid.T) {
 	if rapid.Bool().Draw(t, "custVarCode") {
 		c.reg[tof(CustomVar{})] = &regEntry{Code: &Code{W: 4, V: rapid.Uint32().Draw(t, "custVarCodeV")}}
 	}
+	tokCodes := rapid.SliceOfNDistinct(rapid.Uint32Range(0, 255), 7, 7, func(v uint32) uint32 { return v }).Draw(t, "tokCodes")
+	for i, e := range []struct {
+		ty reflect.Type
+		s  Settings
+	}{{tof(TokName("")), Settings{Prefix: 1}}, {tof(TokNum(0)), Settings{}}, {tof(TokFlag(false)), Settings{}}, {tof(TokList(nil)), Settings{Prefix: 1}},
+		{tof(TokBytes(nil)), Settings{Prefix: 2}}, {tof(TokMap(nil)), Settings{Prefix: 1}}, {tof(TokStruct{}), Settings{}}} {
+		c.reg[e.ty] = &regEntry{Code: &Code{W: 1, V: tokCodes[i]}, S: e.s}
+	}
 	c.reg[tof((*CustomPR)(nil))] = &regEntry{Code: &Code{W: 1, V: uint32(rapid.IntRange(0, 255).Draw(t, "custPRCodeV"))}}
 	if rapid.IntRange(0, 2).Draw(t, "arr32Code") == 0 {
 		c.reg[tof(NArr32{})] = &regEntry{Code: &Code{W: 1, V: uint32(rapid.IntRange(0, 255).Draw(t, "arr32CodeV"))}}
@@ -550,6 +558,7 @@ func (c *Case) registerAll() {
 	}
 	must(c.API.RegisterInterfaceObjects((*Shape)(nil), (*Circle)(nil), (*Rect)(nil), (*Poly)(nil), Dot{}, (*Addr)(nil), (*Unit)(nil)))
 	must(c.API.RegisterInterfaceObjects((*Payload)(nil), (*PayA)(nil), (*PayB)(nil), (*PayC)(nil)))
+	must(c.API.RegisterInterfaceObjects((*Token)(nil), TokName(""), TokNum(0), TokFlag(false), TokList(nil), TokBytes(nil), TokMap(nil), TokStruct{}))
 	if c.Validators {
 		// syntactic validators that accept everything: registered by value (as the documentation recommends), so that
 		// serix has to find them for values and for pointers, on encode and after decode, whenever validation is on
@@ -659,6 +668,27 @@ func (c *Case) nAddrPtr() *Node {
 func (c *Case) nShape() *Node {
 	return &Node{Kind: KIface, T: reflect.TypeOf((*Shape)(nil)).Elem(), Name: "Shape",
 		Impls: []*Node{c.nCirclePtr(), c.nRectPtr(), c.nPolyPtr(), c.nDot(), c.nAddrPtr(), c.nUnitPtr()}}
+}
+
+// nToken: interface whose implementations are a string, a number, a bool, a slice, a byte slice, a map and a struct.
+func (c *Case) nToken() *Node {
+	u16 := leaf(KUint16, numTypes[KUint16], "")
+	coded := func(n *Node) *Node {
+		n.Code = c.regCode(n.T)
+		n.S = c.regS(n.T)
+
+		return n
+	}
+
+	return &Node{Kind: KIface, T: reflect.TypeOf((*Token)(nil)).Elem(), Name: "Token", Impls: []*Node{
+		coded(&Node{Kind: KString, T: tof(TokName("")), Name: "TokName"}),
+		coded(&Node{Kind: KUint32, T: tof(TokNum(0)), Name: "TokNum"}),
+		coded(&Node{Kind: KBool, T: tof(TokFlag(false)), Name: "TokFlag"}),
+		coded(&Node{Kind: KSlice, T: tof(TokList(nil)), Name: "TokList", Elem: u16}),
+		coded(&Node{Kind: KBytes, T: tof(TokBytes(nil)), Name: "TokBytes"}),
+		coded(&Node{Kind: KMap, T: tof(TokMap(nil)), Name: "TokMap", Key: leaf(KUint8, numTypes[KUint8], ""), Elem: u16}),
+		coded(&Node{Kind: KStruct, T: tof(TokStruct{}), Name: "TokStruct", Fields: []*Field{field("A", 0, leaf(KUint8, numTypes[KUint8], ""))}}),
+	}}
 }
 
 func (c *Case) nPayload(depth int) *Node {
@@ -1003,10 +1033,13 @@ func (c *Case) genStruct(t *rapid.T, depth int, label string) *Node {
 			f.N = c.genNamedColl(t, fl)
 		case 10:
 			// interface field, optional or not
-			if rapid.Bool().Draw(t, fl+".pay") {
+			switch rapid.IntRange(0, 4).Draw(t, fl+".which") {
+			case 0, 1:
 				f.N = c.nPayload(depth)
-			} else {
+			case 2, 3:
 				f.N = c.nShape()
+			default:
+				f.N = c.nToken()
 			}
 			f.Optional = rapid.Bool().Draw(t, fl+".opt")
 		case 11, 12:
